@@ -268,6 +268,22 @@ def run(chk):
         depth = 1 + (i % 5)
         items.append((gen_pat(rng, depth), gen_style(rng)))
     add(run_roundtrip(chk, items, "random-trees", stats))
+    # wide and long: many sibling tags with contexts at one level (depth stays small), long pipe-free sequences, and the
+    # same tag spelling repeated many times -- state carried from tag to tag inside one parse shows only here
+    wide = []
+    for i in range(60 if thorough else 12):
+        n_sib = [33, 40, 64, 100, 150][i % 5]
+        base = [tplgen.gen_tag(rng, 1) for _ in range(5)]
+        sibs = []
+        for j in range(n_sib):
+            t = base[j % 5] if i % 2 else tplgen.gen_tag(rng, rng.choice([1, 1, 2]))
+            if t[5] is None:
+                t = (t[0], t[1], t[2], t[3], t[4], [("raw", "c%d" % j)])
+            sibs.append(t)
+            if j % 7 == 3:
+                sibs.append(("raw", "_%d_" % j))
+        wide.append((sibs, gen_style(rng)))
+    add(run_roundtrip(chk, wide, "wide-trees", stats))
     esc = [(t, {"dq": k % 2 == 1, "lower": False, "flag": False, "order": 0, "parens": True, "ws": ""})
            for k, t in enumerate(escape_interplay_trees(4 if thorough else 3))]
     esc = esc + [(t, dict(s, dq=not s["dq"])) for t, s in esc]
